@@ -55,6 +55,94 @@ def _table(mod, name: str) -> ast.AST:
     raise AnalysisError("table %s vanished from term.py" % name)
 
 
+def _table_entries(mod, name: str) -> list[tuple[ast.AST, ast.AST]]:
+    """(key expression, value expression) of every entry the module-level dict `name` holds once the module is imported, in the
+    order in which they are set (a later entry for the same key replaces the earlier one - the caller keys them): the entries of the
+    dict display it is bound to, then what the module-level statements after it store in it - `name[K] = V`, and
+    `for <names> in <constant table>: name[K] = V ...` written out row by row (the loop names replaced by the elements of the row, as
+    vlib.h_c09._Unroller does inside functions; a loop name inside a lambda / nested def is bound late, so such a loop is refused).
+    Any other way in which code of the module can change the dict (a method call on it other than the reading ones, `del name[..]`,
+    an item store outside module level or in a loop that cannot be written out, the name rebound, handed to a function, aliased)
+    is not modelled: AnalysisError, never a guess."""
+    from vlib import h_c09 as H
+    disp = _table(mod, name)
+    if not isinstance(disp, ast.Dict) or any(k is None for k in disp.keys):
+        raise AnalysisError("%s is not a dict display" % name)
+    out: list[tuple[ast.AST, ast.AST]] = list(zip(disp.keys, disp.values))
+    tables = H._module_tables(mod.tree)
+    accounted: set[int] = set()  # the Name nodes (reads of `name`) that are understood
+
+    def item_store(st: ast.AST):
+        if isinstance(st, ast.Assign) and len(st.targets) == 1 and isinstance(st.targets[0], ast.Subscript) and isinstance(st.targets[0].value, ast.Name) \
+                and st.targets[0].value.id == name and not isinstance(st.targets[0].slice, ast.Slice) \
+                and not any(isinstance(x, ast.Name) and x.id == name for x in ast.walk(st.value)) \
+                and not any(isinstance(x, ast.Name) and x.id == name for x in ast.walk(st.targets[0].slice)):
+            return st.targets[0].value, st.targets[0].slice, st.value
+        return None
+
+    seen_display = False
+    for st in mod.tree.body:
+        if not seen_display:
+            if getattr(st, "value", None) is disp:
+                seen_display = True
+            continue
+        one = item_store(st)
+        if one is not None:
+            accounted.add(id(one[0]))
+            out.append((one[1], one[2]))
+            continue
+        if isinstance(st, ast.For) and not st.orelse and st.body and all(item_store(b) is not None for b in st.body):
+            rows = tables.get(st.iter.id) if isinstance(st.iter, ast.Name) else (list(st.iter.elts) if isinstance(st.iter, (ast.Tuple, ast.List)) else None)
+            if isinstance(st.target, ast.Name):
+                names = [st.target.id]
+                per_row = None if rows is None else [[r] for r in rows]
+            elif isinstance(st.target, (ast.Tuple, ast.List)) and all(isinstance(x, ast.Name) for x in st.target.elts) and rows is not None \
+                    and all(isinstance(r, (ast.Tuple, ast.List)) and len(r.elts) == len(st.target.elts) for r in rows):
+                names = [x.id for x in st.target.elts]
+                per_row = [list(r.elts) for r in rows]
+            else:
+                names, per_row = [], None
+            late = any(isinstance(n, (ast.Lambda, ast.FunctionDef, ast.GeneratorExp, ast.ListComp, ast.SetComp, ast.DictComp, ast.NamedExpr)) for b in st.body for n in ast.walk(b))
+            if per_row is None or not (1 <= len(per_row) <= 64) or len(set(names)) != len(names) or name in names or late \
+                    or not all(H._stable_element(e, set()) and not any(isinstance(x, ast.Starred) for x in ast.walk(e)) for r in per_row for e in r) \
+                    or any(isinstance(x, ast.Name) and x.id in names for r in per_row for e in r for x in ast.walk(e)):
+                raise AnalysisError("%s is filled by a loop at line %d that cannot be written out row by row" % (name, st.lineno))
+            import copy
+            for r in per_row:
+                sub = H._RowSubst(dict(zip(names, r)))
+                for b in st.body:
+                    tgt, k, v = item_store(b)
+                    accounted.add(id(tgt))
+                    k2, v2 = sub.visit(copy.deepcopy(k)), sub.visit(copy.deepcopy(v))
+                    for x in (k2, v2):
+                        ast.copy_location(x, b)
+                        ast.fix_missing_locations(x)
+                    out.append((k2, v2))
+            continue
+    # every other mention of the table must be a read that leaves it as it is
+    parents = {id(c): p for p in ast.walk(mod.tree) for c in ast.iter_child_nodes(p)}
+    for n in ast.walk(mod.tree):
+        if not (isinstance(n, ast.Name) and n.id == name) or id(n) in accounted:
+            continue
+        p = parents.get(id(n))
+        if isinstance(n.ctx, ast.Store) and isinstance(p, (ast.Assign, ast.AnnAssign)) and getattr(p, "value", None) is disp:
+            continue
+        if isinstance(n.ctx, ast.Load):
+            gp = parents.get(id(p))
+            if isinstance(p, ast.Attribute) and p.attr in ("get", "keys", "values", "items", "__contains__", "__getitem__", "copy") and isinstance(gp, ast.Call) and gp.func is p:
+                continue
+            if isinstance(p, ast.Subscript) and p.value is n and isinstance(p.ctx, ast.Load):
+                continue
+            if isinstance(p, ast.Compare) and n in p.comparators and all(isinstance(o, (ast.In, ast.NotIn)) for o in p.ops):
+                continue
+            if isinstance(p, ast.Call) and n in p.args and isinstance(p.func, ast.Name) and p.func.id in ("len", "sorted", "list", "tuple", "set", "frozenset", "iter", "dict"):
+                continue
+            if isinstance(p, (ast.For, ast.comprehension)) and p.iter is n:
+                continue
+        raise AnalysisError("%s is used at line %d in a way that may change its entries (not modelled)" % (name, n.lineno))
+    return out
+
+
 def run(repo: Repo, rep: Report) -> None:
     rep.extra["explanation"] = EXPLANATION
     tm = repo.mod("rdflib.term")
@@ -131,17 +219,30 @@ def run(repo: Repo, rep: Report) -> None:
 
     # ------------------------------------------------------------------ (c)
     rep.rule("C09.c-well-formed-table",
-             "every key of _check_well_formed_types has a converter in XSDToPython and its checker is the function named for that datatype", floor=10)
-    wf = _table(tm, "_check_well_formed_types")
-    if not isinstance(wf, ast.Dict):
-        raise AnalysisError("_check_well_formed_types is not a dict display")
-    for k, v in zip(wf.keys, wf.values):
+             "every key of _check_well_formed_types (the entries of its display and those the module stores in it afterwards, a loop over a constant table written out) "
+             "has a converter in XSDToPython and its checker is the one for that datatype: registered under a name, the function named for the datatype; registered "
+             "as an anonymous callable (an instance of a callable class, a functools.partial, a lambda - no name says what it is for), a callable that accepts the "
+             "bounds of that datatype's value space and rejects the integers next to them (evaluated)", floor=10)
+    wf_entries: dict[str, tuple[ast.AST, ast.AST]] = {}
+    for k, v in _table_entries(tm, "_check_well_formed_types"):
+        wf_entries[norm(k)] = (k, v)
+    int_types_c = {k for k, v in STD.items() if v is int}
+    for k, v in wf_entries.values():
         d = _const_str(tm, k)
         local = d.split("+")[-1] if d else ""
         fname = norm(v)
-        canon = fname.replace("_well_formed_", "").replace("_", "").lower()
-        # (the checker: a function of the module, or a module-level name bound to a callable made of one - functools.partial, a lambda)
-        ok = d in conv and canon == local.lower() and _checker(tm, v) is not None
+        ck = _checker(tm, v)
+        if isinstance(v, ast.Name):
+            canon = fname.replace("_well_formed_", "").replace("_", "").lower()
+            # (the checker: a function of the module, or a module-level name bound to a callable made of one - functools.partial, a lambda)
+            ok = d in conv and canon == local.lower() and ck is not None
+        else:
+            ok = d in conv and ck is not None and local in XSD_INT_BOUNDS and XSD_INT_BOUNDS[local] != (None, None)
+            if ok:
+                lo, hi = XSD_INT_BOUNDS[local]
+                inside = [x for x in (lo, hi) if x is not None]
+                outside = ([lo - 1] if lo is not None else []) + ([hi + 1] if hi is not None else [])
+                ok = all(_checker_accepts(tm, v, ck, pt, int_types_c) is True for pt in inside) and all(_checker_accepts(tm, v, ck, pt, int_types_c) is False for pt in outside)
         rep.ob("C09.c-well-formed-table", tm, "_check_well_formed_types", "%s -> %s" % (local, fname), ok,
                "" if ok else "checker %s is registered for %s (converter present: %s): the wrong range check decides ill_typed" % (fname, local, d in conv), node=k)
 
@@ -300,7 +401,33 @@ def _checker(tm, v: ast.AST, depth: int = 0):
         if r is None:
             return None
         return r[0], r[1] + len(v.args) - 1, r[2] | {k.arg for k in v.keywords}
+    if isinstance(v, ast.IfExp):
+        # `A if T else B` with a test that evaluates to a constant: the branch taken
+        try:
+            ev = _checker_evaluator(tm)
+            t = ev.truth(ev.expr(v.test, {}, 0))
+        except _H._Unk:
+            return None
+        return _checker(tm, v.body if t else v.orelse, depth + 1)
+    if isinstance(v, ast.Call) and isinstance(v.func, ast.Name) and isinstance(tm.defs.get(v.func.id), ast.ClassDef):
+        # an instance of a plain class of the module that defines __call__ (see Evaluator.plain_class): what runs is that method, `self` bound
+        methods = _H.Evaluator.plain_class(tm.defs[v.func.id])
+        call = None if methods is None else methods.get("__call__")
+        if call is None or not (list(call.args.posonlyargs) + list(call.args.args)):
+            return None
+        return call, 1, frozenset()
     return None
+
+
+def _checker_evaluator(tm):
+    def lookup(name):
+        d = tm.defs.get(name)
+        return d if isinstance(d, ast.FunctionDef) else None
+
+    def class_lookup(name):
+        d = tm.defs.get(name)
+        return d if isinstance(d, ast.ClassDef) else None
+    return _H.Evaluator(lookup, STD, module_value=lambda n: _module_value(tm, n), class_lookup=class_lookup)
 
 
 def _checker_value_param(ck) -> str | None:
@@ -326,10 +453,7 @@ def _checker_accepts(tm, v: ast.AST, ck, pt: int, int_types: set[str]):
             if a is not None:
                 return a
 
-    def lookup(name):
-        d = tm.defs.get(name)
-        return d if isinstance(d, ast.FunctionDef) else None
-    ev = _H.Evaluator(lookup, STD, module_value=lambda n: _module_value(tm, n))
+    ev = _checker_evaluator(tm)
     try:
         r = ev.apply(ev.expr(v, {}, 0), [str(pt), pt], {}, 0)
     except _H._Unk:
@@ -392,9 +516,8 @@ def more_rules(repo, rep, tm, xd, conv, entries, is_sub) -> None:
              "unbounded side), evaluated by constant folding of its comparison chain or - a checker made by functools.partial of a shared function, one with early exits - "
              "by evaluating its code on that value; an isinstance test in a checker admits every Python type the datatype's converter "
              "can produce", floor=16)
-    wf = _table(tm, "_check_well_formed_types")
     int_types = {k for k, v in STD.items() if v is int}
-    for k, v in zip(wf.keys, wf.values):
+    for k, v in {norm(k): (k, v) for k, v in _table_entries(tm, "_check_well_formed_types")}.values():
         d = _const_str(tm, k)
         local = d.split("+")[-1] if d else ""
         ck = _checker(tm, v)
@@ -1472,9 +1595,7 @@ def _rule_v(repo, rep, tm, conv) -> None:
              "evaluated by constant folding of its comparison chain (or, where it is made by functools.partial of a shared function or has early exits, by evaluating its code), REJECTS the integers next to each bound: else '9223372036854775808'^^xsd:long and "
              "'18446744073709551616'^^xsd:unsignedLong are taken for well-typed and normalised (counterpart of rule f, which checks that the bounds themselves are accepted)", floor=20)
     wf = _table(tm, "_check_well_formed_types")
-    if not isinstance(wf, ast.Dict):
-        raise AnalysisError("_check_well_formed_types is not a dict display")
-    checker = {_local(tm, k): v for k, v in zip(wf.keys, wf.values)}
+    checker = {_local(tm, k): v for k, v in {norm(k): (k, v) for k, v in _table_entries(tm, "_check_well_formed_types")}.values()}
     int_types = {k for k, v in STD.items() if v is int}
     for d, (lo, hi) in sorted(XSD_INT_BOUNDS.items()):
         if d not in conv or (lo is None and hi is None):
